@@ -40,6 +40,9 @@ def where_policy(cond, tr):
     if isinstance(cond, (sp.StrictGreaterThan, sp.GreaterThan)) and cond.rhs.is_number and abs(float(cond.rhs)) < 1e-9 and cond.lhs.is_nonnegative:
         tr.assumed.append("%s  (velocity is not exactly zero)" % cond)
         return True
+    if isinstance(cond, (sp.StrictLessThan, sp.LessThan)) and cond.lhs.is_number and abs(float(cond.lhs)) < 1e-9 and cond.rhs.is_nonnegative:
+        tr.assumed.append("%s  (velocity is not exactly zero)" % cond)
+        return True
     return None
 
 
